@@ -499,6 +499,7 @@ func RunStream(em *Emitter, tr int, st *Stream) {
 	healthy := true
 	inputs := []any{}
 	sidOf := map[string]string{} // ptype -> current sid
+	gapped := map[string]bool{}
 	retired := ""
 	type ladder struct {
 		limit uint64
@@ -547,6 +548,7 @@ func RunStream(em *Emitter, tr int, st *Stream) {
 		if ob.evs == nil {
 			ev["obs"] = []any{}
 		}
+		retiredPrev := retired
 		if oc == "ok" && bar != nil {
 			ev["bid"] = int(bar.BatchId)
 			pls := []any{}
@@ -589,8 +591,12 @@ func RunStream(em *Emitter, tr int, st *Stream) {
 			if mx > math.MaxInt32 {
 				mx = math.MaxInt32
 			}
-			em.Emit(tr, "Ladder", map[string]any{"k": k, "sig": sig, "oc": doc, "err": dmsg, "n": n, "a": int(lim),
-				"b": int(mx), "flag": boolp(isLimit), "x": digestNodes(out)})
+			lev := map[string]any{"k": k, "sig": sig, "oc": doc, "err": dmsg, "n": n, "a": int(lim),
+				"b": int(mx), "flag": boolp(isLimit)}
+			if !bs.NoDump {
+				lev["out"] = out
+			}
+			em.Emit(tr, "Ladder", lev)
 			if doc != "ok" {
 				ld.dead = true
 			}
@@ -598,7 +604,41 @@ func RunStream(em *Emitter, tr int, st *Stream) {
 		toDecode := bar
 		faults := []any{}
 		if len(bs.Faults) > 0 {
-			toDecode, faults = applyFaults(bar, bs.Faults, retired)
+			toDecode, faults = applyFaults(bar, bs.Faults, retiredPrev)
+		}
+		// A sub-stream is "gapped" once the consumer has not been given exactly the producer's
+		// bytes for it (payload dropped, emptied, duplicated, sent under another schema id, or
+		// foreign bytes sent under its id): later payloads of that schema id are an IPC stream
+		// with a hole, which is outside the domain of C07.
+		tainted := false
+		for _, pl := range bar.ArrowPayloads {
+			if gapped[pl.SchemaId] {
+				tainted = true
+			}
+		}
+		if len(faults) > 0 {
+			for _, pl := range bar.ArrowPayloads {
+				cnt := 0
+				for _, q := range toDecode.ArrowPayloads {
+					if q.SchemaId == pl.SchemaId && len(q.Record) > 0 && string(q.Record) == string(pl.Record) {
+						cnt++
+					}
+				}
+				if cnt != 1 {
+					gapped[pl.SchemaId] = true
+				}
+			}
+			for _, q := range toDecode.ArrowPayloads {
+				own := false
+				for _, pl := range bar.ArrowPayloads {
+					if q.SchemaId == pl.SchemaId && string(q.Record) == string(pl.Record) {
+						own = true
+					}
+				}
+				if !own {
+					gapped[q.SchemaId] = true
+				}
+			}
 		}
 		mainPresent := false
 		for _, pl := range toDecode.ArrowPayloads {
@@ -608,7 +648,13 @@ func RunStream(em *Emitter, tr int, st *Stream) {
 		}
 		out, n, doc, dmsg, _ := decode(c, sig, toDecode)
 		dev := map[string]any{"k": k, "sig": sig, "oc": doc, "err": dmsg, "n": n, "l": faults,
-			"flag": boolp(healthy), "a": boolp(mainPresent), "b": itemCount(in), "x": digestNodes(out)}
+			"flag": boolp(healthy), "a": boolp(mainPresent), "b": itemCount(in), "x": digestNodes(out), "bid": boolp(tainted)}
+		if doc != "ok" {
+			// a rejected batch may have stopped before feeding its later payloads to their readers
+			for _, pl := range bar.ArrowPayloads {
+				gapped[pl.SchemaId] = true
+			}
+		}
 		if !bs.NoDump {
 			dev["out"] = out
 		}
